@@ -4,20 +4,27 @@ from . import _histcheck
 
 PROPERTY = 'C06'
 LEVEL = 'exploration'
-RULE = ('per element-content type: core = every sequence of <=3 additions (<=2 when the alphabet exceeds 12; thorough <=3, <=4 for alphabets <=8) and every <=1 addition (thorough <=2) followed by one removal / replacement / forward addition / shortcut / serialisation; halo = seeded hostile histories (mixed, failure-biased, removal-heavy, long runs, shortcut-heavy, guided by valid words). A case is one history; the invariants (both views are permutations of each other and of the shadow model, parents, exactly-once in output) are evaluated after every operation. non-trivial = at least one operation; distinct = distinct operation string')
+RULE = ('per element-content type: core = every sequence of <=3 additions (<=2 when the alphabet exceeds 12; thorough <=3, <=4 for alphabets <=8) and every <=1 addition (thorough <=2) followed by one removal / replacement / forward addition / shortcut / serialisation; long = a valid word of ~300 children followed by replacements / removals at positions >= 257 with serialisations; leaf classes = a child offered to every class without content model is refused or fully tracked; halo = seeded hostile histories (mixed, failure-biased, removal-heavy, long runs, shortcut-heavy, guided by valid words). A case is one history; the invariants (both views are permutations of each other and of the shadow model, parents, exactly-once in output) are evaluated after every operation. non-trivial = at least one operation; distinct = distinct operation string')
 ASSUMPTIONS = ['reference DFAs built from /verif/ref/musicxml_4_0.xsd are the schema (self-tested, cross-checked by C03)', 'children are minimal unchecked instances so only the parent level is judged; parents carry their schema-required attributes', 'witnesses are shrunk by delta debugging before classification; beyond a fixed number per pre-signature they are only counted']
 TIMEOUT = {'quick': 900, 'thorough': 5400}
 PROPS = ('C06',)
 
 
 def plan(tier, seed):
-    return [{'mode': 'repotests', 'cost': 3000}] + _histcheck.plan(lambda t: (genhist.n_core_forward_first(t, 2) * 1 + genhist.n_core_additions(t, genhist.nadd_for(t, tier)) + genhist.n_core_mixed(t, 1 if tier == 'quick' else 2) + 400))
+    return [{'mode': 'repotests', 'cost': 3000}, {'mode': 'leafclasses', 'cost': 500}] + \
+        [{'mode': 'long', 'type': t, 'cost': 2500} for t in sorted(ref.DFAS) if any(True for _ in genhist.core_long(t))] + \
+        _histcheck.plan(lambda t: (genhist.n_core_forward_first(t, 2) * 1 + genhist.n_core_additions(t, genhist.nadd_for(t, tier)) + genhist.n_core_mixed(t, 1 if tier == 'quick' else 2) + 400))
 
 
 def run_shard(shard, tier, seed):
     if shard.get('mode') == 'repotests':
         return _histcheck.run_repo_tests(PROPERTY)
+    if shard.get('mode') == 'leafclasses':
+        return run_leafclasses()
     t = shard['type']
+    if shard.get('mode') == 'long':
+        return _histcheck.run(shard, tier, seed, PROPERTY, [genhist.core_long(t, 300, 2 if tier == 'quick' else 6)], [], PROPS,
+                              shrink_per_presig=1)
     n = genhist.nadd_for(t, tier)
     m = 1 if tier == 'quick' else 2
     cores = [genhist.core_forward_first(t, 2), genhist.core_additions(t, n), genhist.core_mixed(t, m)]
@@ -25,7 +32,47 @@ def run_shard(shard, tier, seed):
     return _histcheck.run(shard, tier, seed, PROPERTY, cores, halos, PROPS, shrink_per_presig=6)
 
 
+def run_leafclasses():
+    """classes whose type has no content model (simple, simple-content and empty types): a child offered to a checked element
+    of such a class is either refused, or it is a child like any other (both views, parent link, exactly once in the output)"""
+    import xml.etree.ElementTree as ET
+    from .. import lib, hist
+    viol = []
+    evals = 0
+    refused = 0
+    for cn, cls in sorted(lib.CLASSES.items()):
+        t = lib.xsd_type_name(cls)
+        if t in ref.DFAS:
+            continue
+        for s in ('voice', 'pitch', 'words', ref.ELEMENT_NAMES[evals % len(ref.ELEMENT_NAMES)]):
+            r = lib.call(lambda: lib.make(cls, check=True, with_required=True))
+            if r[0] == 'exc':
+                break
+            e = r[1]
+            k = lib.make(lib.child_cls(s))
+            evals += 1
+            r = lib.call(e.add_child, k)
+            live = [k] if r[0] == 'ok' else []
+            refused += r[0] == 'exc'
+            v = hist.c06_invariants(e, live, [] if live else [k])
+            if v is None and live:
+                r = lib.call(e.to_string)
+                if r[0] == 'ok':
+                    tags = [c.tag for c in ET.fromstring(r[1])]
+                    if tags != [s]:
+                        v = ('output-count', {'output': tags, 'model': [s]})
+            if v:
+                viol.append({'sig': {'kind': v[0], 'mech': 'child-of-an-element-without-content-model'},
+                             'case': {'cls': cn, 'child': s}, 'detail': v[1]})
+    return {'evaluations': evals, 'distinct_nontrivial': evals, 'violations': viol, 'samples': [],
+            'counters': {'leafclass_offers': evals, 'leafclass_offers_refused': refused}}
+
+
 def replay_case(rp):
+    if 'cls' in rp['case']:
+        res = run_leafclasses()
+        mine = [x for x in res['violations'] if x['case'] == rp['case']]
+        return {'violated': bool(mine), 'violations': [m['sig'] for m in mine]}
     if 'hist' not in rp['case']:
         res = _histcheck.run_repo_tests(PROPERTY)
         return {'violated': bool(res['violations']), 'violations': res['violations'][:3]}
